@@ -6,7 +6,7 @@ ID = "C09"
 LEAN_MODULES = ["LhasaV.Props.C09"]
 VH_FEATURES = ["decoder"]
 PER_OP_SECONDS = 30
-THEOREMS = {"wrap_le_asked": "full: every inner decoder, state and request size"}
+THEOREMS = {'wrap_le_asked': 'full', 'lhnew_reach_inv': 'full', 'lhnew_no_fault': 'full: lh4/5/6/7/x/k7, any input', 'lhnew_params_good': 'full (Gen)', 'lhnew_max_read_ok': 'full (Gen)', 'lzs_no_fault': 'full', 'lz5_no_fault': 'full', 'null_no_fault': 'full', 'pm2_no_fault': 'full', 'pm1_no_fault': 'full', 'lh1_no_fault': 'full: incl. rebuild', 'all_methods_covered': 'full: 14 names'}
 TRUSTED = ["hand-written decoder models (LhasaV.Model.{Bits,Tree,LhNew,Lh1,Lzs,Pm,Wrap}); every C array access is a checked "
            "access against the capacity extracted from the compiled source (Gen.Decoders)",
            "clang ASan + UBSan(bounds,null,...) as the observer of memory errors in the compiled decoders"]
